@@ -19,17 +19,18 @@ import (
 // to CreateScope); thread B then runs one operation to completion (or until it
 // blocks); A is released; finally the provider is closed.
 type overlapCase struct {
-	X        *run
-	A, B     Op
-	GateKind int
-	GateN    int
-	Parked   bool
-	BBlocked bool
-	AObs     *kit.Obs
-	BObs     *kit.Obs
-	Hang     string
-	Desc     string
-	Probes   []probeRes // uses attempted after B's Close returned and before A was released
+	X          *run
+	A, B       Op
+	GateKind   int
+	GateN      int
+	Parked     bool
+	BBlocked   bool
+	AObs       *kit.Obs
+	BObs       *kit.Obs
+	Hang       string
+	Desc       string
+	Probes     []probeRes // uses attempted after B's Close returned and before A was released
+	PostProbes []probeRes // uses attempted on scopes below a closed scope once both threads are done
 }
 
 type probeRes struct {
@@ -323,6 +324,24 @@ func (c *overlapCase) run() {
 			c.BObs = o
 		}
 	}
+	// closing a scope closes all its descendants - also those whose creation overlapped the Close:
+	// once both threads are done, every scope below a scope whose Close has returned must refuse use
+	for _, tag := range x.R.Tags() {
+		rec := x.R.ScopeRecOf(tag)
+		if tag == 0 || rec == nil || !rec.Created {
+			continue
+		}
+		covered := x.R.PCloseEnd != 0
+		for _, a := range x.R.Ancestors(tag) {
+			if ar := x.R.ScopeRecOf(a); ar != nil && ar.CloseEnd != 0 {
+				covered = true
+			}
+		}
+		if covered {
+			_, err := rec.S.Get(kit.RType(kit.NeverType))
+			c.PostProbes = append(c.PostProbes, probeRes{tag, err})
+		}
+	}
 	if !x.R.PClosed {
 		x.exec(Op{Kind: "pclose"})
 	}
@@ -351,6 +370,11 @@ func (c *overlapCase) checkOverlapResults(prop string) *Failure {
 				rel = "descendant"
 			}
 			return fail(prop, "closed-after-return", rel, "%s returned while %s was still in flight, yet scope s%d still accepts resolutions (got %v, want the disposed error)", c.B, c.A, pr.Tag, firstLine(pr.Err))
+		}
+	}
+	for _, pr := range c.PostProbes {
+		if !kit.IsDisposed(pr.Err) {
+			return fail(prop, "cascade-complete", c.A.Kind+"-vs-"+c.B.Kind, "after %s and %s both returned, scope s%d - a descendant of a closed scope - still accepts resolutions (got %v)", c.A, c.B, pr.Tag, firstLine(pr.Err))
 		}
 	}
 	for _, o := range []*kit.Obs{c.AObs, c.BObs} {
@@ -511,6 +535,7 @@ func TestC12Schedules(t *testing.T) {
 					failing[e.Serial] = true
 				}
 			}
+			c.X.Concurrent = true
 			if f := c.X.checkC12(failing); f != nil {
 				return f
 			}
@@ -736,3 +761,21 @@ func runMultiTest(t *testing.T, prop string) {
 
 func TestC02MultiSchedules(t *testing.T) { runMultiTest(t, "C02") }
 func TestC09MultiSchedules(t *testing.T) { runMultiTest(t, "C09") }
+
+// ---- C03: overlapping requests for a transient ----
+
+func TestC03Schedules(t *testing.T) {
+	g := kit.FullOpts()
+	g.Lifetimes = []int{kit.Singleton, kit.Scoped, kit.Transient, kit.Transient, kit.Transient}
+	runOverlapTest(t, "C03", "controlled-schedules",
+		"controlled two-thread programs over transient-rich configurations: thread A resolves an identity and is parked at the n-th constructor entry/exit it reaches; thread B resolves the same identity (or another) in the same or another scope and runs until it returns or blocks; A is released; oracle = C03 ledger oracle (constructor invocations equal request sites, no transient instance handed out twice); non-trivial = A was parked inside a constructor",
+		overlapOpts{Gen: g, AKinds: []string{"get"}, BKinds: []string{"same-get", "same-get", "get"}, GateKind: allGates},
+		func(c *overlapCase) *Failure {
+			if f := c.checkOverlapResults("C03"); f != nil && (f.Oracle == "no-hang" || f.Oracle == "no-panic") {
+				return f
+			}
+			obs, _ := c.X.observations()
+			return c.X.checkC03(obs)
+		},
+		func(c *overlapCase) bool { return true })
+}
